@@ -256,6 +256,21 @@ void vf_run_case(Ctx& c, uint64_t index) {
     if (a.k == MVal::Obj && b.k == MVal::Obj) { bool e = va.as<AJ::JsonObjectConst>() == wb.as<AJ::JsonObjectConst>(); if (e != (r == EQUAL)) c.violation("agrees-with-values", "JsonObjectConst == disagrees with member-wise equality", wit); }
     // unbound references equal only null
     if (j == 0) { AJ::JsonVariantConst unb; Ops ab = ops(va, unb), ba = ops(unb, va); laws(c, ab, ba, a.k == MVal::Null ? EQUAL : DIFFER, "a vs unbound: " + wit); }
+    // null C++ string operands (a null char pointer, a null JsonString): the library treats them as null, and null equals only null
+    if (j == 2) {
+      Ref rn = a.k == MVal::Null ? EQUAL : DIFFER;
+      { const char* np = nullptr; Ops ab = ops(va, np), ba = ops(np, va); laws(c, ab, ba, rn, "variant vs (const char*)nullptr: " + wit); }
+      { AJ::JsonString nj; Ops ab = ops(va, nj), ba = ops(nj, va); laws(c, ab, ba, rn, "variant vs null JsonString: " + wit); }
+      c.count("null_string_operands");
+    }
+    // JsonString handles of two string values: equal exactly when the bytes are identical (== and != coherent, symmetric)
+    if (a.k == MVal::Str && b.k == MVal::Str) {
+      AJ::JsonString ja = va.as<AJ::JsonString>(), jb = vb.as<AJ::JsonString>(), kb = wb.as<AJ::JsonString>();
+      bool want = a.s == b.s;
+      if ((ja == jb) != want || (jb == ja) != want || (ja == kb) != want || (ja != jb) == want || (ja != kb) == want)
+        c.violation("equal-with-different-bytes", std::string("JsonString == JsonString is ") + ((ja == jb) ? "true" : "false") + " / " + ((ja == kb) ? "true" : "false") + " (other document), bytes are " + (want ? "identical" : "different"), wit);
+      c.count("jsonstring_comparisons");
+    }
     // string operands as C++ strings
     if (b.k == MVal::Str) {
       Ref rs = a.k == MVal::Str ? (a.s == b.s ? EQUAL : UNKNOWN) : DIFFER;
